@@ -125,6 +125,10 @@ impl Drop for InFlightRequests {
     }
 }
 
+#[cfg(all(test, tarpc_verif))]
+#[path = "/verif/native_inrepo/server_table.rs"]
+mod verif_native;
+
 #[cfg(test)]
 mod tests {
     use super::*;
